@@ -1325,9 +1325,9 @@ let byte_of dt d =
 let str_of dt ds =
   bind (mapM (byte_of dt) ds) (fun bs -> Ok ((EStr bs) :: []))
 
-(** val is_chars0 : akind option -> bool **)
+(** val is_charp : akind option -> bool **)
 
-let is_chars0 = function
+let is_charp = function
 | Some a -> (match a with
              | AChar -> true
              | AByte -> true
@@ -1378,7 +1378,7 @@ let rec chars_of p = function
    | [] -> None
    | _ :: l ->
      (match l with
-      | [] -> if is_chars0 p then Some (dt, data) else None
+      | [] -> if is_charp p then Some (dt, data) else None
       | _ :: _ -> None))
 | Unmasked c' -> chars_of None c'
 | Par (arr, _, c') -> chars_of (eff p arr) c'
@@ -1435,7 +1435,7 @@ let rec item o p c i =
      | _ :: dims ->
        let sz = prodZ dims in
        bind (slice data (Z.mul i sz) (Z.mul (Z.add i (Zpos XH)) sz))
-         (fun sub0 -> np_block o (is_chars0 p) dt dims sub0))
+         (fun sub0 -> np_block o (is_charp p) dt dims sub0))
   | Empty -> Err EOob
   | ListOffset (_, offs, c') ->
     bind (get offs i) (fun a ->
